@@ -224,9 +224,9 @@ func refParts(root *jsonstrict.Node, c consoleCfg) (parts []string, ok bool) {
 				ok = false
 				continue
 			}
-			lvl, err := zerolog.ParseLevel(v.Str)
-			fl, known := zerolog.FormattedLevels[lvl]
-			if err != nil || !known {
+			// the documented three-letter forms, as a table of this check (not read from the library)
+			fl, known := map[string]string{"trace": "TRC", "debug": "DBG", "info": "INF", "warn": "WRN", "error": "ERR", "fatal": "FTL", "panic": "PNC"}[strings.ToLower(v.Str)]
+			if !known {
 				ok = false
 				continue
 			}
@@ -442,6 +442,11 @@ func runC16() {
 			if r.TimeUp() {
 				return
 			}
+		}
+		// one event at every named level (the level part has one rendering per level)
+		for _, e := range []seqx.Entry{{Kind: "Trace"}, {Kind: "Debug"}, {Kind: "Warn"}, {Kind: "WithLevel", Level: zerolog.FatalLevel}, {Kind: "WithLevel", Level: zerolog.PanicLevel}, {Kind: "WithLevel", Level: zerolog.Level(42)}} {
+			render(mk(tsStep, e, []seqx.Field{{M: "Str", Key: "k0", Val: "v"}, {M: "Int", Key: "k1", Val: 5}}, msgM))
+			render(mk(nil, e, nil, send))
 		}
 		for _, k := range []string{"", "level", "message", "time", "caller", "error", "k 0", "é", "a=b"} {
 			for _, v := range []interface{}{"s", "two words", `q"`, `b\s`, "é", "\x7f", "t\tb", "a=b", ""} {
